@@ -88,12 +88,12 @@ func c01Stream() *media.Stream {
 }
 
 type c01consumer struct {
-	r              *kit.RecConsumer
-	attachAt       int // sequential mode: attach before publishing this index
-	detachAt       int // sequential mode: detach after publishing this index-1 (n+1 = never)
-	cid            media.CID
-	t0, t1, tStop  int64 // racy mode: ticks around attach, tick before stop
-	stopped        bool
+	r             *kit.RecConsumer
+	attachAt      int // sequential mode: attach before publishing this index
+	detachAt      int // sequential mode: detach after publishing this index-1 (n+1 = never)
+	cid           media.CID
+	t0, t1, tStop int64 // racy mode: ticks around attach, tick before stop
+	stopped       bool
 }
 
 func c01IndexList(items []kit.RecItem, byPtr map[format.Packet]int) ([]int, bool) {
@@ -285,7 +285,6 @@ func runC01(c *kit.Ctx) {
 			}()})
 		}
 	}
-
 
 	// ---------- stalled peer: one consumer stops reading (its backlog passes the limit, it is dropped from at key frames);
 	// the healthy consumers attached next to it must still receive every packet
